@@ -11,23 +11,29 @@ Open Scope N_scope.
 Lemma suffixed_nonempty b k : suffixed b k <> [].
 Proof. unfold suffixed, s_us. destruct b; simpl; discriminate. Qed.
 
-Lemma find_unique_spec pref used cnt :
-  exists new cnt', find_unique pref used cnt = Some (new, new :: used, cnt') /\ ~ In new used /\
-                   (new = pref \/ exists j, new = suffixed pref j) /\ (mem pref used = false -> new = pref).
+Lemma mem_app x a b : mem x (a ++ b) = mem x a || mem x b.
+Proof. unfold mem. apply existsb_app. Qed.
+
+Lemma find_unique_spec pref used cnt rsv :
+  exists new cnt', find_unique pref used cnt rsv = Some (new, new :: used, cnt') /\ ~ In new used /\
+                   ~ In new rsv /\
+                   (new = pref \/ exists j, new = suffixed pref j) /\ (mem pref used = false -> mem pref rsv = false -> new = pref).
 Proof.
-  unfold find_unique. destruct (mem pref used) eqn:E.
-  - destruct (gen_fresh_spec (suffixed pref) (suffixed_inj pref) used (N.succ (cnt_get pref cnt)))
+  unfold find_unique. destruct (mem pref used || mem pref rsv) eqn:E.
+  - destruct (gen_fresh_spec (suffixed pref) (suffixed_inj pref) (used ++ rsv) (N.succ (cnt_get pref cnt)))
       as [j [H [_ [Hn _]]]].
-    rewrite H. exists (suffixed pref j), (cnt_set pref j cnt). repeat split; try assumption.
+    rewrite H. exists (suffixed pref j), (cnt_set pref j cnt).
+    rewrite in_app_iff in Hn. repeat split; try tauto.
     + right. exists j. reflexivity.
-    + discriminate.
-  - exists pref, cnt. apply mem_nIn in E. repeat split; auto.
+    + intros A B. rewrite A, B in E. discriminate.
+  - apply orb_false_iff in E. destruct E as [E1 E2]. exists pref, cnt.
+    apply mem_nIn in E1. apply mem_nIn in E2. repeat split; auto.
 Qed.
 
-Lemma find_unique_nonempty pref used cnt new used' cnt' :
-  pref <> [] -> find_unique pref used cnt = Some (new, used', cnt') -> new <> [].
+Lemma find_unique_nonempty pref used cnt rsv new used' cnt' :
+  pref <> [] -> find_unique pref used cnt rsv = Some (new, used', cnt') -> new <> [].
 Proof.
-  intros Hp H. destruct (find_unique_spec pref used cnt) as [n [c [E [_ [[->|[j ->]] _]]]]];
+  intros Hp H. destruct (find_unique_spec pref used cnt rsv) as [n [c [E [_ [_ [[->|[j ->]] _]]]]]];
     rewrite E in H; inversion H; subst; [exact Hp | apply suffixed_nonempty].
 Qed.
 
@@ -63,7 +69,9 @@ Lemma process_value_spec v s used rest :
         (forall u, u <> v -> f_vn s' u = f_vn s u) /\ f_nn s' = f_nn s /\ f_nscopes s' = f_nscopes s /\
         (* already-unique-so-far names are kept *)
         (forall n, f_vn s v = Some n -> n <> [] -> ~ In n used -> new = n) /\
-        (owner_of v (f_inits s) = None -> f_inits s' = f_inits s)
+        (owner_of v (f_inits s) = None -> f_inits s' = f_inits s) /\
+        (* a changed name is never one that existed in the graph when the run started *)
+        (f_vn s v <> Some new -> ~ In new (f_rv s)) /\ f_rv s' = f_rv s /\ f_rn s' = f_rn s
   end.
 Proof.
   intros Hsc. unfold process_value. destruct (memN v (f_seen s)) eqn:Es; [split; reflexivity|].
@@ -77,7 +85,7 @@ Proof.
       * intros m Hm _ _. congruence.
     + set (pref := if is_empty (Some n) then s_v else n).
       assert (Hp : pref <> []) by (unfold pref; destruct n; simpl; discriminate).
-      destruct (find_unique_spec pref used (f_vcnt s)) as [new [cnt' [E [Hn [_ Hk]]]]]. rewrite E.
+      destruct (find_unique_spec pref used (f_vcnt s) (f_rv s)) as [new [cnt' [E [Hn [Hr [_ Hk]]]]]]. rewrite E.
       pose proof (set_vname_spec v new (f_vn s) (f_inits s)) as HS.
       destruct (set_vname v new (f_vn s) (f_inits s)) as [[vn' inits']|x].
       * destruct HS as [A [B C]]. exists new. simpl. repeat split; auto.
@@ -88,7 +96,7 @@ Proof.
            ++ apply mem_In in Ek. contradiction.
       * exact HS.
   - simpl.
-    destruct (find_unique_spec s_v used (f_vcnt s)) as [new [cnt' [E [Hn [_ Hk]]]]]. rewrite E.
+    destruct (find_unique_spec s_v used (f_vcnt s) (f_rv s)) as [new [cnt' [E [Hn [Hr [_ Hk]]]]]]. rewrite E.
     pose proof (set_vname_spec v new (f_vn s) (f_inits s)) as HS.
     destruct (set_vname v new (f_vn s) (f_inits s)) as [[vn' inits']|x].
     + destruct HS as [A [B C]]. exists new. simpl. repeat split; auto.
@@ -105,7 +113,7 @@ Proof.
   unfold not_fuel, process_value. destruct (memN v (f_seen s)); [discriminate|].
   destruct (f_vscopes s) as [|used rest]; [discriminate|].
   match goal with |- context [if ?c then _ else _] => destruct c end; [discriminate|].
-  match goal with |- context [find_unique ?p ?u ?c] => destruct (find_unique_spec p u c) as [new [cnt' [E _]]]; rewrite E end.
+  match goal with |- context [find_unique ?p ?u ?c ?r] => destruct (find_unique_spec p u c r) as [new [cnt' [E _]]]; rewrite E end.
   pose proof (set_vname_spec v new (f_vn s) (f_inits s)) as HS.
   destruct (set_vname v new (f_vn s) (f_inits s)) as [[vn' inits']|x]; simpl; [discriminate|].
   destruct HS as [-> _]. discriminate.
@@ -124,7 +132,7 @@ Lemma process_node_name_nofuel n s : not_fuel (process_node_name n s).
 Proof.
   unfold not_fuel, process_node_name. destruct (f_nscopes s) as [|used rest]; [discriminate|].
   match goal with |- context [if ?c then _ else _] => destruct c end; [discriminate|].
-  match goal with |- context [find_unique ?p ?u ?c] => destruct (find_unique_spec p u c) as [new [cnt' [E _]]]; rewrite E end.
+  match goal with |- context [find_unique ?p ?u ?c ?r] => destruct (find_unique_spec p u c r) as [new [cnt' [E _]]]; rewrite E end.
   discriminate.
 Qed.
 
@@ -149,7 +157,8 @@ Qed.
 Lemma fix_all_nofuel gs : forall s, not_fuel (fix_all gs s).
 Proof.
   induction gs as [|g r IH]; intros s; simpl; [discriminate|].
-  apply fbind_nofuel; [apply fx_events_nofuel | exact IH].
+  apply fbind_nofuel; [|exact IH]. unfold fix_graph_names.
+  destruct (collect_names _ _ _ _) as [rv rn]. apply fx_events_nofuel.
 Qed.
 
 (* ---------- without initializers no ValueError; with balanced events no IndexError *)
@@ -174,7 +183,7 @@ Proof.
   - destruct H as [-> ->]. split; [split; [rewrite Hsc; exact D1 | exact D2] | auto].
   - destruct e as [x|].
     + destruct H as [-> H]. split; [reflexivity|]. intros N. apply H. apply N.
-    + destruct H as [new [_ [_ [_ [A [_ [_ [_ [B [_ C]]]]]]]]]]. split.
+    + destruct H as [new [_ [_ [_ [A [_ [_ [_ [B [_ [C _]]]]]]]]]]]. split.
       * split; [rewrite A; simpl in *; exact D1 | rewrite B; exact D2].
       * intros N u. rewrite (C (N v)). apply N.
 Qed.
@@ -200,7 +209,7 @@ Proof.
   intros [D1 D2]. unfold process_node_name. destruct (f_nscopes s) as [|used rest] eqn:Hsc; [discriminate|].
   match goal with |- context [if ?c then _ else _] => destruct c end.
   - unfold step_fine, depth_ok. simpl. rewrite D1. simpl in D2. auto.
-  - match goal with |- context [find_unique ?p ?u ?c] => destruct (find_unique_spec p u c) as [new [cnt' [E _]]]; rewrite E end.
+  - match goal with |- context [find_unique ?p ?u ?c ?r] => destruct (find_unique_spec p u c r) as [new [cnt' [E _]]]; rewrite E end.
     unfold step_fine, depth_ok. simpl. rewrite D1. simpl in D2. auto.
 Qed.
 
@@ -231,7 +240,7 @@ Proof.
     destruct e as [gid isfunc ins outs| |nid nins nouts]; simpl in W.
     + (* EEnter *) apply (K (S d)); [|exact W]. simpl.
       destruct D as [D1 D2]. destruct (f_vscopes s) as [|top rest] eqn:Hsc; [discriminate|].
-      set (s1 := mkF (f_vn s) (f_nn s) (f_inits s) (f_seen s) (f_vcnt s) (f_ncnt s) (top :: top :: rest) ([] :: f_nscopes s) (f_mod s)).
+      set (s1 := mkF (f_rv s) (f_rn s) (f_vn s) (f_nn s) (f_inits s) (f_seen s) (f_vcnt s) (f_ncnt s) (top :: top :: rest) ([] :: f_nscopes s) (f_mod s)).
       assert (D' : depth_ok (S d) s1) by (unfold depth_ok, s1; simpl in *; split; congruence).
       assert (F : step_fine (S d) s1
                 (fbind (process_values ins s1) (fun s2 => fbind (process_values outs s2) (fun s3 =>
@@ -294,11 +303,11 @@ Lemma fix_graph_names_no_inits g vn nn inits m :
   (forall v, owner_of v inits = None) ->
   let r := fix_graph_names g vn nn inits m in snd r = None /\ no_inits (fst r).
 Proof.
-  intros N. unfold fix_graph_names.
+  intros N. unfold fix_graph_names. destruct (collect_names (events_graph g) vn nn inits) as [rv rn].
   assert (W : wb 0 (events_graph g)) by (rewrite <- (app_nil_r (events_graph g)); apply events_balanced; exact I).
-  assert (D : depth_ok 0 (fx_init vn nn inits m)) by (split; reflexivity).
+  assert (D : depth_ok 0 (fx_init rv rn vn nn inits m)) by (split; reflexivity).
   pose proof (fx_events_fine _ _ _ W D) as F. unfold run_fine in F.
-  destruct (fx_events (events_graph g) (fx_init vn nn inits m)) as [s' [e|]] eqn:E; simpl in *.
+  destruct (fx_events (events_graph g) (fx_init rv rn vn nn inits m)) as [s' [e|]] eqn:E; simpl in *.
   - destruct F as [_ F]. exfalso. apply F. exact N.
   - split; [reflexivity | apply F; exact N].
 Qed.
@@ -320,8 +329,8 @@ Proof. intros N. unfold name_fix_pass. apply fix_all_no_inits. exact N. Qed.
 Lemma fix_graph_names_only_valueerror g vn nn inits m e :
   snd (fix_graph_names g vn nn inits m) = Some e -> e = ValueError.
 Proof.
-  unfold fix_graph_names. intros H.
+  unfold fix_graph_names. destruct (collect_names (events_graph g) vn nn inits) as [rv rn]. intros H.
   assert (W : wb 0 (events_graph g)) by (rewrite <- (app_nil_r (events_graph g)); apply events_balanced; exact I).
-  assert (D : depth_ok 0 (fx_init vn nn inits m)) by (split; reflexivity).
+  assert (D : depth_ok 0 (fx_init rv rn vn nn inits m)) by (split; reflexivity).
   pose proof (fx_events_fine _ _ _ W D) as F. unfold run_fine in F. rewrite H in F. tauto.
 Qed.
